@@ -15,7 +15,11 @@ func VerifNewWithExpired[K comparable, V any](defaultExpiration time.Duration, e
 	for k, v := range expired {
 		items[k] = zcache.Item[V]{Object: v, Expiration: 1}
 	}
-	return &Cache[K, V]{cache: zcache.NewFrom[K, V](defaultExpiration, 0, items)}
+	// the REAL constructor builds the object (fields a later version adds are
+	// initialised by it); only the inner store is swapped for one with the entries
+	c := New[K, V](defaultExpiration, 0)
+	c.cache = zcache.NewFrom[K, V](defaultExpiration, 0, items)
+	return c
 }
 
 // VerifExpire plays "the TTL of this entry ran out": the entry is still stored
